@@ -560,3 +560,9 @@ func vShort(b []byte) string {
 }
 
 func peerIDOf(id int) peer.ID { return peer.ID(strconv.Itoa(id)) }
+
+func vDumpAll(path string) {
+	buf := make([]byte, 8<<20)
+	n := runtime.Stack(buf, true)
+	os.WriteFile(path, buf[:n], 0o644)
+}
